@@ -150,7 +150,7 @@ class DataPath:
             "len": "length",
         }
 
-        if not isinstance(spec, dict):
+        if not isinstance(spec, dict) or not spec:
             raise MalformedDataPathSpec(general_msg)
         else:
             spec_key, spec_val = next(iter(spec.items()))  # single-item dict
@@ -159,7 +159,7 @@ class DataPath:
         ESC_CODE = rf"\{REPLACE}"
         is_escaped = False
         for k in list(spec.keys()):
-            if ESC_CODE in k:
+            if isinstance(k, str) and ESC_CODE in k:
                 is_escaped = True
                 spec_val = spec.pop(k)
                 k_new = k.replace(ESC_CODE, REPLACE)
